@@ -443,9 +443,14 @@ func (g *GoBackNConn) sendPacketsForever() error {
 			default:
 			}
 
-			// Start the pong timer.
-			g.pongTicker.Reset()
-			g.pongTicker.Resume()
+			// Start the pong timer, unless it is already running
+			// for an earlier ping that has not been answered:
+			// restarting it with every new ping would postpone
+			// the timeout for as long as we keep pinging.
+			if !g.pongTicker.IsActive() {
+				g.pongTicker.Reset()
+				g.pongTicker.Resume()
+			}
 
 			// Also reset the ping timer.
 			g.pingTicker.Reset()
@@ -495,6 +500,21 @@ func (g *GoBackNConn) sendPacketsForever() error {
 				if err := resendQueue(); err != nil {
 					return err
 				}
+
+			case <-g.pingTicker.Ticks():
+				// We have not heard from the peer for the ping
+				// interval but the window is full, so we cannot
+				// queue a ping packet. The queued packets that
+				// we keep resending serve as the probe instead:
+				// start the pong timer (if it is not running
+				// yet) so that a dead peer is still detected.
+				if !g.pongTicker.IsActive() {
+					g.pongTicker.Reset()
+					g.pongTicker.Resume()
+				}
+
+			case <-g.pongTicker.Ticks():
+				return errKeepaliveTimeout
 			}
 		}
 	}
